@@ -1,5 +1,6 @@
 import TxV.Drv.Common
 import TxV.Model.Auth
+import TxV.Model.Unescape
 /-
 Driver for C04.
   run <methods: none|S,C,H,N,o…> <cookie: nofile|ioerror|d<hex>> <pw: absent|v<hex>|empty|raises> <cnonce hex>
@@ -54,6 +55,17 @@ def showOut : Out → String
 
 def step (_ : Unit) (line : String) : Unit × String :=
   match words line with
+  | ["unesc", h] =>
+    -- `unescape_quoted_string` of a text: `some <hex>` | `none` (ValueError)
+    match Hex.decodeText h with
+    | some t => ((), match TxV.Unescape.unescapeQuoted t with
+        | some r => "some " ++ Hex.encText r
+        | none => "none")
+    | none => ((), "bad-op")
+  | ["toresc", h] =>
+    match Hex.decodeText h with
+    | some t => ((), Hex.encText (TxV.Unescape.torQuoted t))
+    | none => ((), "bad-op")
   | "run" :: m :: c :: p :: cn :: s2c :: c2s :: resps =>
     match decMethods m, decCookie c, decPw p, Hex.decodeBytes cn, Hex.decodeBytes s2c, Hex.decodeBytes c2s, resps.mapM decResp with
     | some ms, some ck, some pw, some cnonce, some a, some b, some rs =>
